@@ -15,7 +15,7 @@
 (* object, which is what Submit requires.                                                                     *)
 EXTENDS Naturals, Sequences, FiniteSets, TLC
 
-CONSTANTS Clusters, Aliases, Variant, MaxEvents, Admission     \* Admission = FALSE: objects whose names collide with another cluster's reach the gateway too
+CONSTANTS Clusters, Aliases, Variant, MaxEvents, Admission, Tombstones     \* Admission = FALSE: objects whose names collide with another cluster's reach the gateway too
 Absent == {"#absent"}     \* (a set, like every other value of api/applied)
 None == "none"
 Hosts == Clusters \cup Aliases
@@ -32,11 +32,16 @@ Claimed(c) == IF api[c] = Absent THEN {} ELSE NamesOf(c, api[c])
 Submit(c, al) == /\ nev < MaxEvents /\ api[c] # al
                  /\ Admission => \A o \in Clusters \ {c} : Claimed(o) \cap NamesOf(c, al) = {}
                  /\ api' = [api EXCEPT ![c] = al] /\ queue' = Append(queue, [c |-> c, obj |-> al, tries |-> 0]) /\ nev' = nev + 1
-                 /\ hist' = Append(hist, [k |-> "apply", c |-> c, al |-> al])
+                 /\ hist' = Append(hist, [k |-> "apply", c |-> c, al |-> al, tomb |-> FALSE])
                  /\ UNCHANGED <<mgr, applied>>
-Remove(c) == /\ nev < MaxEvents /\ api[c] # Absent
-             /\ api' = [api EXCEPT ![c] = Absent] /\ queue' = Append(queue, [c |-> c, obj |-> api[c], tries |-> 0]) /\ nev' = nev + 1   \* the event carries the deleted object
-             /\ hist' = Append(hist, [k |-> "delete", c |-> c, al |-> {}])
+\* a deletion reaches the gateway as a Delete event carrying the deleted object - or, when the informer's watch was interrupted while the object
+\* was deleted, as a TOMBSTONE (cache.DeletedFinalStateUnknown) found by the relist.  Tombstones = "handled" | "dropped" (refuted: the event
+\* handler discards what is not a runtime.Object before it looks for a tombstone: the deletion is never processed) | "none" (not generated)
+Remove(c, tomb) ==
+             /\ nev < MaxEvents /\ api[c] # Absent /\ (tomb => Tombstones # "none")
+             /\ api' = [api EXCEPT ![c] = Absent] /\ nev' = nev + 1
+             /\ queue' = IF tomb /\ Tombstones = "dropped" THEN queue ELSE Append(queue, [c |-> c, obj |-> api[c], tries |-> 0])   \* the event carries the deleted object
+             /\ hist' = Append(hist, [k |-> "delete", c |-> c, al |-> {}, tomb |-> tomb])
              /\ UNCHANGED <<mgr, applied>>
 
 \* the worker
@@ -59,8 +64,8 @@ Work ==
                  ELSE /\ mgr' = [h \in Hosts |-> IF h \in new THEN c
                                                 ELSE IF applied[c] # Absent /\ h \in applied[c] /\ mgr[h] = c THEN None ELSE mgr[h]]
                       /\ applied' = [applied EXCEPT ![c] = new] /\ queue' = Tail(queue)
-  /\ UNCHANGED <<api, nev>> /\ hist' = Append(hist, [k |-> "settle", c |-> "", al |-> {}])
-Next == (\E c \in Clusters, al \in SUBSET Aliases : Submit(c, al)) \/ (\E c \in Clusters : Remove(c)) \/ Work
+  /\ UNCHANGED <<api, nev>> /\ hist' = Append(hist, [k |-> "settle", c |-> "", al |-> {}, tomb |-> FALSE])
+Next == (\E c \in Clusters, al \in SUBSET Aliases : Submit(c, al)) \/ (\E c \in Clusters, tomb \in BOOLEAN : Remove(c, tomb)) \/ Work
 Spec == Init /\ [][Next]_vars
 View == <<api, mgr, applied, queue, nev>>
 
